@@ -4,6 +4,7 @@
 package rt
 
 import (
+	"bytes"
 	"encoding/json"
 	"errors"
 	"fmt"
@@ -188,6 +189,14 @@ func RunHarness(f func()) (outcome string) {
 		return "REPLAY-FAILED"
 	}
 	return "REPLAY-OK"
+}
+
+// ProtoEqual: the two messages have the same protobuf encoding (nil and empty repeated fields
+// are the same thing on the wire).
+func ProtoEqual(a, b codec.ProtoMarshaler) bool {
+	x, err1 := a.Marshal()
+	y, err2 := b.Marshal()
+	return err1 == nil && err2 == nil && bytes.Equal(x, y)
 }
 
 func ErrIs(err, target error) bool { return errors.Is(err, target) }
